@@ -35,6 +35,7 @@ type Frame struct {
 	rangeOf map[*ssa.Range]*rangeState
 	rangeOrd map[*ssa.Range]int
 	allocOrder []*ssa.Alloc
+	perReturn func(st *State, results []*Val, k int, pos token.Pos)
 }
 
 type loopInfo struct {
@@ -227,6 +228,9 @@ func (vc *VC) execBlock(fr *Frame, b *ssa.BasicBlock, st *State, ins []*State) {
 			var rs []*Val
 			for _, r := range x.Results {
 				rs = append(rs, vc.val(fr, st, r))
+			}
+			if fr.perReturn != nil {
+				fr.perReturn(st, rs, len(fr.retSts), x.Pos())
 			}
 			fr.retVals = append(fr.retVals, rs)
 			fr.retSts = append(fr.retSts, st)
